@@ -107,10 +107,7 @@ struct Lab {
 
 impl Lab {
     fn new() -> Result<Lab, String> {
-        let port = {
-            let l = TcpListener::bind("127.0.0.1:0").unwrap();
-            l.local_addr().unwrap().port()
-        };
+        let port = hvcommon::net::free_port("127.0.0.1");
         let addr: SocketAddr = format!("127.0.0.1:{}", port).parse().unwrap();
         let (tx, rx) = channel();
         let app: App<St> = App::new_with_config(2, St { behaviours: Mutex::new(HashMap::new()), logs: Mutex::new(HashMap::new()), finish: Mutex::new(HashMap::new()), pending_ids: Mutex::new(Vec::new()) })
